@@ -45,6 +45,10 @@ US2 == << Fe("F1", <<>>, <<>>, <<Sc("S1", <<"retry(1)">>, <<"run", "run">>)>>,
 US3 == << Fe("F1", <<>>, <<"run">>, <<Sc("S1", <<>>, <<"run", "run">>), Sc("S2", <<>>, <<>>)>>,
              <<Ru("R1", <<>>, <<>>, <<Sc("S3", <<>>, <<"run">>)>>), Ru("R2", <<>>, <<>>, <<>>)>>) >>
 
+\* three own steps and two retries (C12: step texts may repeat inside a scenario)
+US4 == << Fe("F1", <<>>, <<"run">>, <<Sc("S1", <<"retry(2)">>, <<"run", "run", "run">>),
+                                     Sc("S2", <<>>, <<"run", "run">>)>>, <<>>) >>
+
 \* combinators (C13): untagged scenario with a background, @allow.skipped on a rule,
 \* on a feature and on a scenario
 UK == << Fe("F1", <<>>, <<"run">>, <<Sc("S1", <<"retry(1)">>, <<"run">>)>>,
